@@ -188,6 +188,7 @@ func checkC17(tier string) *Report {
 	x.RunOn(worlds)
 
 	c17Documents(rep, worlds, full)
+	c17JSONDocuments(rep, worlds, full)
 	c17JSONMutations(rep, worlds[0])
 	rep.Guard(rep.Outcomes["state-round-trips"] > 50, "too few states round-tripped: %v", rep.Outcomes)
 	rep.Guard(rep.Outcomes["doc-accepted-and-initialised"] > 100 && rep.Outcomes["doc-rejected-by-validation"] > 100, "document grammar vacuous: %v", rep.Outcomes)
@@ -480,4 +481,109 @@ func (w *World) observables(ctx sdk.Context) string {
 		fmt.Fprintf(&b, "directc(%s)=%d,%v,%v;", cntRowOf(e).key(), n, found, err)
 	}
 	return b.String()
+}
+
+
+// c17JSONDocuments: hand-written genesis FILES. The exported genesis of a rich state, as the JSON text the codec
+// writes, under every single-point mutation of its tree (member deleted / duplicated / renamed, value replaced by
+// null, numbers, strings, lists, objects, other enum spellings, huge integers, NUL bytes …): what `validate-genesis`
+// and InitChain would be given by an operator editing the file. For each document the module's ValidateGenesis must
+// return a verdict (never panic); if it accepts, InitGenesis on an empty store must succeed and the state must
+// round-trip. (thorough: the mutations are applied to two base documents.)
+func c17JSONDocuments(rep *Report, worlds []*World, full bool) {
+	w0 := worlds[0]
+	om0, err := w0.orbiterModule()
+	if err != nil {
+		rep.HarnessError("%v", err)
+		return
+	}
+	// base states: a short history with every kind of entry
+	mkBase := func(ops []Op) (string, bool) {
+		b := Branch(w0.Ctx)
+		for _, op := range ops {
+			w0.Apply(b, op)
+		}
+		return string(om0.ExportGenesis(b, w0.App.appCodec)), true
+	}
+	orb := w0.Orb.String()
+	bases := [][]Op{{
+		w0.OpPauseProtocol("PROTOCOL_HYPERLANE"), w0.OpPauseCC("PROTOCOL_CCTP", "1"), w0.OpPauseAction("ACTION_SWAP"), w0.OpUpdateParams(64),
+		w0.OpRecv("t(cctp0,fee)", TransferSpec{"channel-0", denomUSDC, "10000", orb, w0.FwdCCTP(0), []FeeSpec{{To: w0.Fee1.String(), Bps: 100}}}.Pkt()),
+	}}
+	if full {
+		bases = append(bases, []Op{
+			w0.OpPauseCC("PROTOCOL_INTERNAL", "vault"), w0.OpPauseCC("PROTOCOL_HYPERLANE", "7", "8"),
+			w0.OpRecv("t(internal,uother)", TransferSpec{"channel-1", denomOTH, "42", orb, w0.FwdInternal(w0.Bob), nil}.Pkt()),
+			w0.OpRecv("t(hyp1)", TransferSpec{"channel-1", denomUSDC, "777", orb, w0.FwdHyp(1), nil}.Pkt()),
+		})
+	}
+	enumNames := []string{"PROTOCOL_UNSUPPORTED", "PROTOCOL_IBC", "PROTOCOL_CCTP", "PROTOCOL_HYPERLANE", "PROTOCOL_INTERNAL", "PROTOCOL_FOO", "ACTION_UNSUPPORTED", "ACTION_FEE", "ACTION_SWAP", "ACTION_FOO"}
+	type jdoc struct{ label, text string }
+	var docs []jdoc
+	for bi, ops := range bases {
+		text, _ := mkBase(ops)
+		root, err := jparse(text)
+		if err != nil {
+			rep.HarnessError("exported genesis is not parseable JSON: %v", err)
+			return
+		}
+		docs = append(docs, jdoc{fmt.Sprintf("base%d unmodified", bi), text})
+		for _, m := range SingleMutations(root, nil, enumNames) {
+			if t, ok := applyMutations(root, m); ok {
+				docs = append(docs, jdoc{fmt.Sprintf("base%d: %s", bi, m.Name), t})
+			}
+		}
+	}
+	rep.Extra["json_documents"] = len(docs)
+	parallelFor(worlds, len(docs), func(w *World, i int) {
+		d := docs[i]
+		om, err := w.orbiterModule()
+		if err != nil {
+			rep.HarnessError("%v", err)
+			return
+		}
+		rep.Count("evaluations", 1)
+		sig := "json " + trunc(d.label, 200)
+		replay := mustJSON(map[string]any{"genesis": json.RawMessage(d.text)})
+		if !json.Valid([]byte(d.text)) {
+			replay = mustJSON(map[string]any{"genesis_text": d.text})
+		}
+		var verr error
+		var vpan any
+		func() {
+			defer func() { vpan = recover() }()
+			verr = om.ValidateGenesis(w.App.appCodec, nil, json.RawMessage(d.text))
+		}()
+		if vpan != nil {
+			rep.Outcome("json-doc-validation-panicked")
+			rep.Violate(Violation{Kind: "validate-genesis-panics", Group: "json", Sig: sig, Replay: replay,
+				What: fmt.Sprintf("ValidateGenesis panicked (%v) on the exported genesis with %s", vpan, trunc(d.label, 200))})
+			return
+		}
+		if verr != nil {
+			rep.Outcome("json-doc-rejected")
+			return
+		}
+		rep.Distinct(sig)
+		b := Branch(w.Ctx)
+		w.wipeOrbiterStore(b)
+		var ipan any
+		func() {
+			defer func() { ipan = recover() }()
+			om.InitGenesis(b, w.App.appCodec, json.RawMessage(d.text))
+		}()
+		if ipan != nil {
+			rep.Outcome("json-doc-accepted-but-init-fails")
+			rep.Violate(Violation{Kind: "validated-genesis-cannot-be-initialised", Group: "json", Sig: sig, Replay: replay,
+				What: fmt.Sprintf("genesis file passes validation but InitGenesis fails: %v  [%s]", ipan, trunc(d.label, 200))})
+			return
+		}
+		if _, _, problem := w.genesisRoundTrip(b); problem != "" {
+			rep.Violate(Violation{Kind: "state-from-validated-genesis-does-not-round-trip", Group: "json", Sig: sig, Replay: replay,
+				What: fmt.Sprintf("state initialised from a validated genesis file does not round-trip: %s  [%s]", problem, trunc(d.label, 200))})
+			return
+		}
+		rep.Outcome("json-doc-accepted-and-initialised")
+	})
+	rep.Guard(rep.Outcomes["json-doc-accepted-and-initialised"] > 10 && rep.Outcomes["json-doc-rejected"] > 100, "JSON genesis family vacuous: %v", rep.Outcomes)
 }
